@@ -238,6 +238,12 @@ func detectZIPFormat(r io.ReaderAt, size int64) (Format, error) {
 		}
 	}
 
+	// The mimetype file of an ODF package is recommended, not required; without it the media
+	// type of the package is the "/" entry of META-INF/manifest.xml.
+	if strings.Contains(odfManifestMediaType(zr), "application/vnd.oasis.opendocument.text") {
+		return ODT, nil
+	}
+
 	// Check for EPUB container (META-INF/container.xml)
 	for _, f := range zr.File {
 		if f.Name == "META-INF/container.xml" {
@@ -295,4 +301,30 @@ func ooxmlMainPart(zr *zip.Reader) Format {
 		}
 	}
 	return Unknown
+}
+
+// odfManifestMediaType returns the media type that META-INF/manifest.xml declares for the
+// package itself (the file entry with the path "/"), or "".
+func odfManifestMediaType(zr *zip.Reader) string {
+	var manifest struct {
+		Entries []struct {
+			Path string `xml:"full-path,attr"`
+			Type string `xml:"media-type,attr"`
+		} `xml:"file-entry"`
+	}
+	for _, f := range zr.File {
+		if f.Name == "META-INF/manifest.xml" {
+			if rc, err := f.Open(); err == nil {
+				_ = xml.NewDecoder(io.LimitReader(rc, 1<<20)).Decode(&manifest)
+				rc.Close()
+			}
+			break
+		}
+	}
+	for _, e := range manifest.Entries {
+		if e.Path == "/" {
+			return e.Type
+		}
+	}
+	return ""
 }
